@@ -548,6 +548,32 @@ def _attach_predicate(repo: Repo, mm, rc: ast.FunctionDef):
     fn = inline.normalize(repo, mm, rc)
     defs = single_defs(fn)
     loops = [n for n in walk_no_nested(fn) if isinstance(n, ast.For)]
+    if len(loops) == 2:
+        # for c in L[:k]: c.attach(self)      for c in L[k:]: c.detach(self)      with k = max(0, n): the two complementary runs
+        def run(lp_):
+            it_ = resolve_names(lp_.iter, {k_: v_ for k_, v_ in defs.items() if not isinstance(v_, ast.Call) or norm(v_.func) != "max"})
+            if not (isinstance(it_, ast.Subscript) and isinstance(it_.slice, ast.Slice) and it_.slice.step is None and norm(it_.value) == "self.user_defined"
+                    and isinstance(lp_.target, ast.Name)):
+                return None
+            body_ = [st for st in lp_.body if not isinstance(st, ast.Pass)]
+            if len(body_) != 1:
+                return None
+            what = {f"{lp_.target.id}.attach(self)": "attach", f"{lp_.target.id}.detach(self)": "detach"}.get(norm(body_[0]))
+            return (what, it_.slice.lower, it_.slice.upper) if what else None
+        r1, r2 = run(loops[0]), run(loops[1])
+        if r1 and r2 and {r1[0], r2[0]} == {"attach", "detach"}:
+            att, det = (r1, r2) if r1[0] == "attach" else (r2, r1)
+            if att[1] is None and att[2] is not None and det[2] is None and det[1] is not None and norm(att[2]) == norm(det[1]):
+                bound = resolve_names(att[2], defs)
+                if isinstance(bound, ast.Call) and norm(bound.func) == "max" and len(bound.args) == 2 and not bound.keywords \
+                        and sorted(norm(a) for a in bound.args) == sorted(["0", "self.user_defined_controllers"]):
+                    return "ok", ""
+                if norm(bound) == "self.user_defined_controllers":
+                    return "?", "self.user_defined[:n] with an n that is not known to be non-negative (a negative n counts from the end)"
+                return "?", f"run boundary {norm(bound)}"
+            if att[2] is None and det[1] is None:
+                return "bad", "the leading controllers are detached and the trailing ones attached"
+        return "?", "2 loops"
     if len(loops) != 1:
         return "?", f"{len(loops)} loops"
     lp = loops[0]
